@@ -1,0 +1,45 @@
+//go:build verif
+// +build verif
+
+// Contracts for package auth, read by /verif's govc (contract-based deductive verification).
+// This file contains comments only; it is compiled only under the build tag "verif" and adds no code.
+
+package auth
+
+//@ import "strings"
+//@ import "sync"
+
+// ---- rights compilation (C11): the matchers of a user are exactly those of the CURRENT access strings ------------
+// number of non-empty ';'-separated masks of an access string (uninterpreted: the pattern language is C16)
+//@ spec func nonEmptyMasks(access string) int = uninterpreted
+//@ extern func strings.ToLower(s string) (r string)
+//@   modifies
+// initMatchers appends one compiled matcher per non-empty mask (assumed: scanning is string-library code)
+//@ func initMatchers(access string, destMatcher *[]PathMatcher) ()
+//@   trusted
+//@   requires destMatcher != nil
+//@   modifies *destMatcher
+//@   ensures len(*destMatcher) == old(len(*destMatcher)) + nonEmptyMasks(access) && 0 <= nonEmptyMasks(access) && nonEmptyMasks(access) <= 1<<20
+
+// after init (also when re-run by CopyFrom) nothing is left over from earlier rights: the number of matchers
+// equals the number of masks of the access string as it is now; an administrator with an empty right gets "*"
+//@ func (u *User) init() (err error)
+//@   requires u != nil && len(u.pushMatchers) <= 1<<20 && len(u.pullMatchers) <= 1<<20
+//@   modifies u.Name, u.PullAccess, u.PushAccess, u.pushMatchers, u.pullMatchers
+//@   ensures err == nil
+//@   ensures len(u.pushMatchers) == nonEmptyMasks(u.PushAccess) && len(u.pullMatchers) == nonEmptyMasks(u.PullAccess)
+//@   ensures u.Admin && old(len(u.PullAccess)) == 0 ==> len(u.PullAccess) == 1 && u.PullAccess[0] == 0x2a
+//@   ensures u.Admin && old(len(u.PushAccess)) == 0 ==> len(u.PushAccess) == 1 && u.PushAccess[0] == 0x2a
+//@   ensures !(u.Admin && old(len(u.PullAccess)) == 0) ==> sameStr(u.PullAccess, old(u.PullAccess))
+//@   ensures !(u.Admin && old(len(u.PushAccess)) == 0) ==> sameStr(u.PushAccess, old(u.PushAccess))
+
+// update: the password changes only when asked; the rights are those of src, compiled afresh
+//@ func (u *User) CopyFrom(src *User, withPassword bool) ()
+//@   requires u != nil && src != nil && len(u.pushMatchers) <= 1<<20 && len(u.pullMatchers) <= 1<<20
+//@   modifies u.Password, u.Admin, u.PushAccess, u.PullAccess, u.Name, u.pushMatchers, u.pullMatchers
+//@   ensures withPassword ==> sameStr(u.Password, old(src.Password))
+//@   ensures !withPassword && u != src ==> sameStr(u.Password, old(u.Password))
+//@   ensures u.Admin == old(src.Admin)
+//@   ensures len(u.pushMatchers) == nonEmptyMasks(u.PushAccess) && len(u.pullMatchers) == nonEmptyMasks(u.PullAccess)
+//@   ensures !(u.Admin && old(len(src.PullAccess)) == 0) ==> sameStr(u.PullAccess, old(src.PullAccess))
+//@   ensures !(u.Admin && old(len(src.PushAccess)) == 0) ==> sameStr(u.PushAccess, old(src.PushAccess))
